@@ -105,7 +105,9 @@ POSITIVE_EXAMPLE = {
         "class Tok(BigSMILESbase):\n"
         "    def __init__(self, text):\n        self.bond_descriptors = []\n        self._raw_text = text\n\n"
         "    def generate(self, prefix=None, rng=None):\n        first = self.bond_descriptors[0]\n        bump(first)\n        return prefix\n\n"
-        "    def generate_string(self, extension):\n        local = copy.deepcopy(self.bond_descriptors)\n        local[0].weight = 1.0\n        self._memo = 1\n        return ''\n"
+        "    def generate_string(self, extension):\n        local = copy.deepcopy(self.bond_descriptors)\n        local[0].weight = 1.0\n        self._memo = 1\n        return ''\n\n"
+        "    @property\n    def residues(self):\n        if getattr(self, '_pending', None) is None:\n            self._pending = [1, 2, 3]\n        self._pending.pop()\n        return []\n\n"
+        "    @property\n    def generable(self):\n        self._generable_memo = len(self._raw_text) > 0\n        return self._generable_memo\n"
     ),
 }
 
@@ -146,6 +148,135 @@ def no_parser_store(eng, res, rule="R-NO-PARSER-STORE"):
     res.ob(rule, "selfcheck", "positive-example", "built-in positive example (descriptor of the parsed token edited through a helper) is flagged, its deep-copy twin is not",
            "-", ok, "the effect analysis no longer detects the built-in example")
     return len(eps), E
+
+
+STRUCTURAL = {"<append>", "<extend>", "<insert>", "<pop>", "<remove>", "<clear>", "<sort>", "<reverse>", "<update>", "<add>", "<discard>", "<setdefault>", "<popitem>"}
+DRAW_CALLS = {"choice", "rvs", "draw_mw", "random", "normal", "uniform", "integers", "shuffle", "permutation", "generate", "choose_compatible_weight"}
+
+
+def _rng_tainted(eng, fi, value, at):
+    """the stored value depends on the random stream (a draw, a generated molecule, anything computed from `rng`)"""
+    fl = eng.flow(fi)
+    try:
+        t = fl.expand(value, at, depth=8)
+    except AnalysisError:
+        t = value
+    for n in ast.walk(t):
+        if isinstance(n, ast.Name) and n.id.split("#")[0] == "rng":
+            return True
+        if isinstance(n, ast.Attribute) and n.attr == "rng":
+            return True
+        if isinstance(n, ast.Call) and callee_name(n) in DRAW_CALLS and callee_name(n) not in ("generate",):
+            return True
+    return False
+
+
+def _slot_reads(eng, root, slot):
+    """is the persistent slot read anywhere in the package (other than by the statements that fill it)?"""
+    name = slot if slot else root.split(".")[-1]
+    n = 0
+    for m in eng.prog.modules.values():
+        for x in ast.walk(m.tree):
+            if isinstance(x, ast.Attribute) and x.attr == name and isinstance(x.ctx, ast.Load):
+                n += 1
+            elif isinstance(x, ast.Name) and x.id == name and isinstance(x.ctx, ast.Load) and root.startswith("@"):
+                n += 1
+            elif isinstance(x, ast.Constant) and x.value == name:  # getattr(self, "<name>", ...)
+                n += 1
+    return n
+
+
+def history_state(eng, res, E, rule="R-NO-HISTORY-STATE", collect=None, selfcheck=True):
+    """State that survives a call — a memo attribute no constructor establishes, module-level state, a class-level
+    table — may be *filled* by generation (a memo of something that depends only on the parsed object), but
+    (a) what has been put there is never changed structurally afterwards (an element deleted / appended, a field of a
+        remembered object re-assigned): the next call would start from the changed object;
+    (b) it is never filled with a value that depends on the random stream and read again: the next call's output
+        would depend on earlier draws."""
+    res.doc(rule, "state surviving a call (memo attributes, module-level / class-level tables) is not changed structurally below the slot that was filled, and is not filled from the random stream")
+    eps = entry_points(eng)
+    all_attrs = set()
+    for c in eng.prog.subclasses(NOTATION_BASE):
+        all_attrs |= ctor_attrs(eng, c)
+    ff_cache = {"_global_assignment_class", "_global_nonbonded_itp_file", "_global_smarts_rule_file"}
+    n = 0
+    for fi in eps:
+        notation = is_notation(eng, fi.cls)
+        bad = []
+        for (root, path) in sorted(E.mut.get(fi.qualname, set()), key=str):
+            persistent = None
+            if root.startswith("@"):
+                if root.split(".")[-1] in ff_cache:
+                    continue  # the force-field cache is decided by C20's R-FF-ROLE
+                persistent = ("module-level state " + root[1:], 0)
+            elif root == "self" and notation:
+                memo = [i for i, a in enumerate(path) if a != "[]" and a != "…" and not a.startswith("<") and a not in all_attrs]
+                if not memo:
+                    continue
+                persistent = (f"memo attribute .{path[memo[0]]} (no constructor establishes it)", memo[0] + 1)
+            if persistent is None:
+                continue
+            what, k = persistent
+            below = path[k:]
+            # the slot itself: re-binding (no further path), or one element store / fill of the table
+            tail = [a for a in below]
+            depth = len([a for a in tail if not a.startswith("<")])
+            last = tail[-1] if tail else ""
+            sites = E.sites.get((fi.qualname, (root, path)), [])
+            why = E.why.get((fi.qualname, (root, path)), "")
+            fill = (depth == 0 and last not in ("<pop>", "<remove>", "<clear>", "<sort>", "<reverse>", "<popitem>", "<discard>")) or (depth == 1 and tail[0] == "[]")
+            if last == "<inplace>":
+                res.info(f"{fi.qualname}: numeric in-place update below {what} [{why[:100]}] — harmless only if idempotent (not decided)")
+                continue
+            if not fill:
+                bad.append(f"{what}: remembered content is changed afterwards ({'.'.join(path)}) [{why[:110]}]")
+                continue
+            # a fill: the stored value must not depend on the random stream if the slot is ever read
+            for sfi, st in sites:
+                val = None
+                if isinstance(st, (ast.Assign, ast.AnnAssign)):
+                    val = st.value
+                elif isinstance(st, ast.AugAssign):
+                    val = st.value
+                elif isinstance(st, ast.Call) and st.args:
+                    val = st.args[-1]
+                if val is None:
+                    continue
+                try:
+                    at = eng.flow(sfi).cfg.node_of(st)
+                except AnalysisError:
+                    continue
+                if _rng_tainted(eng, sfi, val, at) and _slot_reads(eng, root, path[k - 1] if k else ""):
+                    bad.append(f"{what} is filled with a value that depends on the random stream at {sfi.module.relpath}:{st.lineno} and read again")
+        n += 1
+        if collect is not None:
+            collect[fi.qualname] = bool(bad)
+        res.ob(rule, fi, "no-history-state", "nothing that survives this call is changed below its slot or filled from the random stream", fi.node, not bad, "; ".join(sorted(set(bad))[:3]))
+    if selfcheck:
+        ok = history_example_fires()
+        res.ob(rule, "selfcheck", "positive-example", "built-in positive example (a remembered list that is popped on every call) is flagged, its write-once twin is not", "-", ok,
+               "the history-state analysis no longer detects the built-in example")
+    return n
+
+
+def history_example_fires() -> bool:
+    from ..engine import Engine
+    from ..report import Result
+
+    tmp = tempfile.mkdtemp(prefix="sa_posex_")
+    try:
+        d = os.path.join(tmp, "src", "gbigsmiles")
+        os.makedirs(d)
+        for fn, text in POSITIVE_EXAMPLE.items():
+            with open(os.path.join(d, fn), "w") as fh:
+                fh.write(text)
+        eng = Engine(tmp)
+        E = Effects(eng)
+        got = {}
+        history_state(eng, Result("C10"), E, collect=got, selfcheck=False)
+        return got.get("tok.Tok.residues") is True and got.get("tok.Tok.generable") is False and got.get("tok.Tok.generate_string") is False
+    finally:
+        shutil.rmtree(tmp, ignore_errors=True)
 
 
 def copy_owned(eng, res, rule="R-COPY-OWNED"):
@@ -505,6 +636,8 @@ def check(eng, res):
     res.floor("R-GLOBAL-RNG-USE", n2, 8)
     n3, E = no_parser_store(eng, res)
     res.floor("R-NO-PARSER-STORE", n3, 60)
+    n5 = history_state(eng, res, E)
+    res.floor("R-NO-HISTORY-STATE", n5, 60)
     n4 = copy_owned(eng, res)
     res.floor("R-COPY-OWNED", n4, 2)
     shared_mutable(eng, res)
